@@ -43,10 +43,11 @@ type Crash struct {
 }
 
 type Action struct {
-	Kind string  `json:"kind"` // batch | forcemerge | sleep | copy | hold | settle
+	Kind string  `json:"kind"` // batch | forcemerge | sleep | copy | hold | settle | quiesce | release | hold_persister | await_held | release_persister
 	Ops  []sw.Op `json:"ops,omitempty"`
 	US   int     `json:"us,omitempty"`
 	Dest string  `json:"dest,omitempty"`
+	Gate bool    `json:"gate,omitempty"` // copy: do not write the first file before a "release" action (or 60 s)
 }
 
 type Session struct {
@@ -216,17 +217,22 @@ func gen(f vh.Flags, r *vrand.R, emit func(In)) {
 				// away, the merged root persisted and the old snapshot purged
 				front := []Action{}
 				if in.Layout.Unsafe {
-					// ... and the backed-up root is one the persister never gives a record of its own
+					// ... and the backed-up root is one the persister never gives a record of its own:
+					// the persister is held at the end of the round the first batch causes; the backup
+					// starts on the root of the second batch, the third follows, then the persister is
+					// let go and persists the newest root only
 					in.Layout.Opts = 5
-					front = append(front, Action{Kind: "batch", Ops: genOps(r, nids, &ver)})
+					front = append(front, Action{Kind: "hold_persister"}, Action{Kind: "batch", Ops: genOps(r, nids, &ver)}, Action{Kind: "await_held"},
+						Action{Kind: "batch", Ops: genOps(r, nids, &ver)})
 				}
-				front = append(front, Action{Kind: "copy", Dest: "copyb", US: vrand.Pick(r, []int{150000, 250000})})
-				// while the backup sits before its first segment file: another batch, time for the
-				// persister to write everything down, a merge of all files, time to persist the merged
-				// root and purge what it replaced
-				front = append(front, Action{Kind: "batch", Ops: genOps(r, nids, &ver)}, Action{Kind: "sleep", US: 80000},
-					Action{Kind: "forcemerge"}, Action{Kind: "sleep", US: 100000},
-					Action{Kind: "batch", Ops: genOps(r, nids, &ver)}, Action{Kind: "sleep", US: 60000})
+				front = append(front, Action{Kind: "copy", Dest: "copyb", Gate: true, US: vrand.Pick(r, []int{2000, 20000})})
+				// while the backup sits before its first segment file (gated, not timed: the sequence
+				// must not depend on how loaded the machine is): another batch, the persister writes
+				// everything down, a merge of all files, the merged root is persisted and what it
+				// replaced purged, one more batch and round; only then may the backup touch its files
+				front = append(front, Action{Kind: "batch", Ops: genOps(r, nids, &ver)}, Action{Kind: "release_persister"}, Action{Kind: "quiesce"},
+					Action{Kind: "forcemerge"}, Action{Kind: "quiesce"},
+					Action{Kind: "batch", Ops: genOps(r, nids, &ver)}, Action{Kind: "quiesce"}, Action{Kind: "release"})
 				in.Sessions[0].Actions = append(front, in.Sessions[0].Actions...)
 				for i := 0; i < nids; i++ {
 					if r.Chance(3, 4) {
@@ -313,22 +319,29 @@ func childMain(specJSON string) {
 	}
 	out := bufio.NewWriter(os.Stdout)
 	var mu sync.Mutex
-	lastEvent := time.Now()
+	var nEvents, nMergeStarts int64 // guarded by mu
 	emit := func(ev *scorch.VerifEvent) {
 		b, _ := json.Marshal(ev)
 		out.Write(b)
 		out.WriteByte('\n')
 		out.Flush()
-		lastEvent = time.Now()
+		nEvents++
+		if ev.Kind == "merge_start" {
+			nMergeStarts++
+		}
 	}
 	armed := false
 	var copyWaiters []chan struct{}
 	mappingPersisted := make(chan struct{})
 	var once sync.Once
 	count := 0
+	// holdCh != nil (guarded by mu): the persister is held at the end of its current round (hook
+	// point persist_release_waiters: no lock held, the round's commit is done) until the channel is
+	// closed - a sequencing aid for unsafe-batch scenarios, bounded by 30 s
+	var holdCh chan struct{}
+	heldNow := make(chan struct{}, 1)
 	ctl := func(ev *scorch.VerifEvent) {
 		mu.Lock()
-		defer mu.Unlock()
 		emit(ev)
 		if ev.Kind == "point" && ev.Name == "persist_synced" {
 			once.Do(func() { close(mappingPersisted) })
@@ -337,17 +350,31 @@ func childMain(specJSON string) {
 			close(copyWaiters[0])
 			copyWaiters = copyWaiters[1:]
 		}
-		if !armed || spec.Session.Crash == nil {
-			return
+		var wait chan struct{}
+		if ev.Kind == "point" && ev.Name == "persist_release_waiters" {
+			wait = holdCh
 		}
-		name := ev.Kind
-		if ev.Kind == "point" {
-			name = ev.Name
+		if armed && spec.Session.Crash != nil {
+			name := ev.Kind
+			if ev.Kind == "point" {
+				name = ev.Name
+			}
+			if name == spec.Session.Crash.Point {
+				count++
+				if count == spec.Session.Crash.Occ {
+					os.Exit(3) // the process dies here: nothing after this point runs
+				}
+			}
 		}
-		if name == spec.Session.Crash.Point {
-			count++
-			if count == spec.Session.Crash.Occ {
-				os.Exit(3) // the process dies here: nothing after this point runs
+		mu.Unlock()
+		if wait != nil {
+			select {
+			case heldNow <- struct{}{}:
+			default:
+			}
+			select {
+			case <-wait:
+			case <-time.After(30 * time.Second):
 			}
 		}
 	}
@@ -379,7 +406,9 @@ func childMain(specJSON string) {
 				cur = e
 			}
 		}
-		note(sw.Note("recover", cur))
+		// (informational: the parent has read the snapshot epoch this session starts from off
+		// root.bolt before starting it and put its own "recover" note in front of the session)
+		note(sw.Note("reopened", cur))
 		vs, err := sw.DocVersions(idx, spec.NIDs)
 		if err != nil {
 			fmt.Fprintln(os.Stderr, "child: observe failed:", err)
@@ -408,7 +437,7 @@ func childMain(specJSON string) {
 		// statement (with unsafe batches New returns before that): wait for the first commit
 		select {
 		case <-mappingPersisted:
-		case <-time.After(20 * time.Second):
+		case <-time.After(120 * time.Second): // generous: the machine may be heavily loaded
 			fmt.Fprintln(os.Stderr, "child: the mapping was never persisted")
 			os.Exit(9)
 		}
@@ -435,6 +464,57 @@ func childMain(specJSON string) {
 			}
 		}()
 	}
+
+	// "At rest" is decided from scorch's own monotonic counters, not from wall-clock silence (a
+	// persister stalled in an fsync for a second is not at rest):
+	//   - the persister sits in the wait at the end of its loop (TotPersistLoopWait is bumped after
+	//     removeOldData, right before that wait; TotPersistLoopEnd right after it), so every one of
+	//     its hook events has been emitted;
+	//   - the root epoch is the last persisted epoch and the last epoch the merger planned (it found
+	//     nothing to merge there: a merge would have moved the root on).
+	st, _ := sc.Stats().(*scorch.Stats)
+	type bgCounters struct {
+		wait, end, persisted, merged, root uint64
+		events                             int64
+	}
+	readBG := func() bgCounters {
+		var c bgCounters
+		if st != nil {
+			c.wait = atomic.LoadUint64(&st.TotPersistLoopWait)
+			c.end = atomic.LoadUint64(&st.TotPersistLoopEnd)
+			c.persisted = atomic.LoadUint64(&st.LastPersistedEpoch)
+			c.merged = atomic.LoadUint64(&st.LastMergedEpoch)
+			c.root = atomic.LoadUint64(&st.CurRootEpoch)
+		}
+		mu.Lock()
+		c.events = nEvents
+		mu.Unlock()
+		return c
+	}
+	quiet := func(c bgCounters) bool {
+		if st == nil || c.wait != c.end+1 || c.persisted != c.merged {
+			return false
+		}
+		// CurRootEpoch is only set by the introducer: 0 = nothing introduced since Open
+		return c.root == 0 || c.root == c.persisted
+	}
+	waitQuiet := func(d time.Duration) bool {
+		deadline := time.Now().Add(d)
+		for !quiet(readBG()) {
+			if time.Now().After(deadline) {
+				return false
+			}
+			time.Sleep(2 * time.Millisecond)
+		}
+		return true
+	}
+	mergeStarts := func() int64 {
+		mu.Lock()
+		defer mu.Unlock()
+		return nMergeStarts
+	}
+	copyGate := make(chan struct{}) // closed by a "release" action
+	var gateOnce sync.Once
 
 	tg := sw.NewTagger()
 	tg.Seq = spec.TagBase
@@ -480,12 +560,16 @@ func childMain(specJSON string) {
 			copyWaiters = append(copyWaiters, started)
 			mu.Unlock()
 			us := a.US
+			var gate <-chan struct{}
+			if a.Gate {
+				gate = copyGate
+			}
 			ci := uint64(nCopies)
 			nCopies++
 			note(sw.Note("copy_begin", ci, uint64(atomic.LoadInt64(&nReturned))))
 			go func() {
 				defer bg.Done()
-				if err := idx.(bleve.IndexCopyable).CopyTo(slowDir{bleve.FileSystemDirectory(dest), us}); err != nil {
+				if err := idx.(bleve.IndexCopyable).CopyTo(&slowDir{FileSystemDirectory: bleve.FileSystemDirectory(dest), us: us, gate: gate}); err != nil {
 					fmt.Fprintln(os.Stderr, "child: CopyTo:", err)
 					os.Exit(11)
 				}
@@ -493,7 +577,7 @@ func childMain(specJSON string) {
 			}()
 			select {
 			case <-started:
-			case <-time.After(10 * time.Second):
+			case <-time.After(120 * time.Second):
 			}
 		case "hold":
 			// hold an index reader for a while and check that the files of its snapshot stay on disk
@@ -528,25 +612,37 @@ func childMain(specJSON string) {
 					time.Sleep(300 * time.Microsecond)
 				}
 			}()
+		case "quiesce":
+			// sequencing aid (no observation): let the persister, merger and purger finish what the
+			// previous actions caused, however long that takes on a loaded machine
+			waitQuiet(30 * time.Second)
+		case "release":
+			gateOnce.Do(func() { close(copyGate) })
+		case "hold_persister":
+			// the persister stops at the end of the round it is in / starts next, and waits there
+			mu.Lock()
+			if holdCh == nil {
+				holdCh = make(chan struct{})
+			}
+			mu.Unlock()
+		case "await_held":
+			select {
+			case <-heldNow:
+			case <-time.After(30 * time.Second):
+			}
+		case "release_persister":
+			mu.Lock()
+			if holdCh != nil {
+				close(holdCh)
+				holdCh = nil
+			}
+			mu.Unlock()
 		case "settle":
-			// wait until background work has gone quiet, then list the directory; the listing only
-			// counts if nothing happened for a while before AND after it was taken
+			// Wait until the background work has come to rest (waitQuiet above), then read the retained
+			// snapshot epochs and list the directory.  The observation only counts if the counters and
+			// the number of emitted events are the same before and after it (all counters are
+			// monotonic, so nothing moved in between).
 			bg.Wait()
-			if spec.Session.Sampler {
-				// copies and held readers are finished: one more (empty, tagged) batch makes the
-				// persister run another round, and with it the purger, before the directory is judged
-				b, seq, err := tg.Build(idx, nil, true)
-				if err == nil {
-					if err = idx.Batch(b); err == nil && !spec.Layout.Unsafe {
-						note(sw.Note("ack", uint64(seq)))
-					}
-				}
-			}
-			idleFor := func() time.Duration {
-				mu.Lock()
-				defer mu.Unlock()
-				return time.Since(lastEvent)
-			}
 			if spec.Session.Sampler {
 				close(stopSampler)
 				samplerWG.Wait()
@@ -554,19 +650,58 @@ func childMain(specJSON string) {
 			}
 			var eps, ids []uint64
 			settled := false
-			for try := 0; try < 60 && !settled; try++ {
-				for i := 0; i < 400 && idleFor() < 300*time.Millisecond; i++ {
-					time.Sleep(20 * time.Millisecond)
+			settleBy := time.Now().Add(90 * time.Second) // give up (and say so: "unsettled") rather than hang
+			for round := 0; round < 6 && !settled && time.Now().Before(settleBy); round++ {
+				if !waitQuiet(time.Until(settleBy)) {
+					break
 				}
-				eps, _ = sc.RootBoltSnapshotEpochs()
-				ids = zapIDs(storeDir)
-				time.Sleep(200 * time.Millisecond)
-				settled = idleFor() >= 500*time.Millisecond
+				m0 := mergeStarts()
+				if spec.Session.Sampler {
+					// the merger is done with this root (whatever it un-marked is un-marked by now):
+					// one more empty batch makes the persister run another round, and with it the
+					// purger, before the directory is judged.  The first of these batches is tagged
+					// (the parent mirrors it); should a merge start meanwhile the round is repeated.
+					var err error
+					if round == 0 {
+						var b *bleve.Batch
+						var seq int64
+						if b, seq, err = tg.Build(idx, nil, true); err == nil {
+							if err = idx.Batch(b); err == nil && !spec.Layout.Unsafe {
+								note(sw.Note("ack", uint64(seq)))
+							}
+						}
+					} else {
+						err = idx.Batch(idx.NewBatch())
+					}
+					if err != nil {
+						fmt.Fprintln(os.Stderr, "child: settle batch:", err)
+						os.Exit(7)
+					}
+				}
+				for try := 0; try < 50 && !settled && time.Now().Before(settleBy); try++ {
+					if !waitQuiet(time.Until(settleBy)) {
+						break
+					}
+					c1 := readBG()
+					if !quiet(c1) {
+						continue
+					}
+					eps, _ = sc.RootBoltSnapshotEpochs()
+					ids = zapIDs(storeDir)
+					settled = readBG() == c1
+				}
+				if settled && spec.Session.Sampler && mergeStarts() != m0 {
+					settled = false
+				}
 			}
 			sort.Slice(eps, func(i, j int) bool { return eps[i] < eps[j] })
-			note(sw.Note("bolt_epochs", eps...))
-			if spec.Session.Sampler && settled {
-				note(sw.Note("quiescent", ids...))
+			if settled {
+				note(sw.Note("bolt_epochs", eps...))
+				if spec.Session.Sampler {
+					note(sw.Note("quiescent", ids...))
+				}
+			} else {
+				note(sw.Note("unsettled"))
 			}
 		}
 	}
@@ -598,10 +733,20 @@ func childMain(specJSON string) {
 // persists, merges, purges and other copies really overlap with it.
 type slowDir struct {
 	bleve.FileSystemDirectory
-	us int
+	us   int
+	gate <-chan struct{} // if set: the first file is not written before this is closed (or 60 s have passed)
+	once sync.Once
 }
 
-func (d slowDir) GetWriter(filePath string) (io.WriteCloser, error) {
+func (d *slowDir) GetWriter(filePath string) (io.WriteCloser, error) {
+	if d.gate != nil {
+		d.once.Do(func() {
+			select {
+			case <-d.gate:
+			case <-time.After(60 * time.Second):
+			}
+		})
+	}
 	if d.us > 0 {
 		time.Sleep(time.Duration(d.us) * time.Microsecond)
 	}
@@ -620,7 +765,9 @@ func runChild(spec childSpec) (evs []*scorch.VerifEvent, code int, stderr string
 func runChildKill(spec childSpec, killAfter time.Duration) (evs []*scorch.VerifEvent, code int, stderr string, err error) {
 	sj, _ := json.Marshal(spec)
 	cmd := exec.Command(os.Args[0])
-	cmd.Env = append(os.Environ(), "VH_CHILD="+string(sj))
+	// BLEVE_VERIF_LOCKED_INTRO: the introducer reports its events while it still holds rootLock
+	// (index/scorch/verif_on.go), so no goroutine acts on a root before its event is in the stream
+	cmd.Env = append(os.Environ(), "VH_CHILD="+string(sj), "BLEVE_VERIF_LOCKED_INTRO=1")
 	var eb strings.Builder
 	cmd.Stderr = &eb
 	pipe, err := cmd.StdoutPipe()
@@ -647,7 +794,9 @@ func runChildKill(spec childSpec, killAfter time.Duration) (evs []*scorch.VerifE
 		}
 		close(done)
 	}()
-	timer := time.AfterFunc(90*time.Second, func() { _ = cmd.Process.Kill() })
+	// hang watchdog (a session takes well under a second of CPU; the bound is wall-clock and has to
+	// hold on a machine whose cores are all taken by other work)
+	timer := time.AfterFunc(300*time.Second, func() { _ = cmd.Process.Kill() })
 	<-done
 	werr := cmd.Wait()
 	timer.Stop()
@@ -747,6 +896,20 @@ func exec_(in In) vh.Result {
 		spec := childSpec{Path: path, Layout: in.Layout, NIDs: in.NIDs, Session: s, TagBase: tagBase, First: si == 0}
 		mirrorTags(tg, s)
 		tagBase = tg.Seq
+		if si > 0 {
+			// the snapshot this session starts from, read off root.bolt while no process has the
+			// index open; the note stands in front of everything the session emits (the background
+			// goroutines of a reopened index run before Open returns)
+			rec := sw.Note("recover")
+			if _, beps, err := sw.NamedFiles(path + "/store"); err == nil && len(beps) > 0 {
+				var cur uint64
+				for _, e := range beps {
+					cur = max(cur, e)
+				}
+				rec = sw.Note("recover", cur)
+			}
+			all = append(all, rec)
+		}
 		evs, code, stderr, err := runChild(spec)
 		if err != nil {
 			return vh.Result{Direct: &vh.Direct{Kind: "error", Detail: "child: " + err.Error()}}
